@@ -33,7 +33,7 @@ func init() {
 	addProp(&PropSpec{
 		ID: "C15",
 		Harnesses: []HarnessSpec{
-			{Name: "VerifH_timeout", Covers: []string{"accepted", "clamped", "rejected-shape", "rejected-nondigit", "signed-unspecified"}},
+			{Name: "VerifH_timeout", Covers: []string{"accepted", "clamped", "rejected-shape", "rejected-nondigit", "signed"}},
 		},
 		Bounds: map[string]string{
 			"quick":    "every grpc-timeout string of length 0..10 (all bytes symbolic)",
